@@ -68,7 +68,7 @@ def custom(C, pid, tier, seed):
     violations, broken = [], []
     gen = os.path.join(C.LEAN, "GdslModel", "Gen", "Traits.lean")
     with C.Lock():
-        rc, out, _ = C.sh(["python3", os.path.join(root, "tools", "translate_traits.py"), "/repo", gen], timeout=120)
+        rc, out, _ = C.sh(["python3", os.path.join(root, "tools", "translate_traits.py"), os.environ.get("VERIF_REPO", "/repo"), gen], timeout=120)
         translated = rc == 0
         if not translated:
             broken.append(("proof", "translator: " + out.strip()[-400:]))
